@@ -66,6 +66,13 @@ func (x *Exec) evalSpecBool(c Clause, sc *SpecScope, st *State) (res *Term) {
 	return v.Tm
 }
 
+func (x *Exec) evalSpecVal(c Clause, sc *SpecScope, st *State) *Value {
+	if sc.dyn != nil {
+		sc.dyn(st)
+	}
+	return x.evalSpec(parseSpec(c), sc, st)
+}
+
 func (sc *SpecScope) lookup(name string) (*Value, bool) {
 	for s := sc; s != nil; s = s.parent {
 		if v, ok := s.names[name]; ok {
@@ -214,6 +221,9 @@ func (x *Exec) specIdent(name string, sc *SpecScope, st *State) *Value {
 		}
 	}
 	if v, ok := sc.lookup(name); ok {
+		return v
+	}
+	if v, ok := x.ghosts[name]; ok {
 		return v
 	}
 	// ghost heap map as a whole
